@@ -134,7 +134,7 @@ def translate(scn, raw, recheck=True):
         kind = e["e"]
         if kind == "Reset":
             evs.append({"e": "Reset", "scn": scn["id"],
-                        "conf": {"useLogger": scn["mode"] != "bare", "recheck": recheck, "safeEnv": True, "locks": True, "eager": True},
+                        "conf": {"useLogger": scn["mode"] != "bare", "recheck": recheck, "safeEnv": True, "locks": True, "eager": True, "rt": True},
                         "todo": dict({"p%d" % p: [["p%d" % p, i] for i in range(1, k + 1)] for p in range(1, n + 1)},
                                      **({"pw": [["pw", i] for i in range(1, relog + 1)]} if relog else {})),
                         "script": script, "app": "alive"})
@@ -317,7 +317,7 @@ def translate_life(sid, path, n, k, late, raw, rc):
         kind = e["e"]
         if kind == "Reset":
             evs.append({"e": "Reset", "scn": sid,
-                        "conf": {"useLogger": True, "recheck": True, "safeEnv": True, "locks": True, "eager": True},
+                        "conf": {"useLogger": True, "recheck": True, "safeEnv": True, "locks": True, "eager": True, "rt": True},
                         "todo": todo, "script": script, "app": "none"})
         elif kind == "App":
             left -= 1
